@@ -16,7 +16,7 @@ from ..consteval import fold_const, fold_expr, Regex, EnumMember
 from .c03_flow import OFlow, SanCall, strip_proj, via_of
 from .c03_inline import (inline_helpers, inline_test_locals, comprehension_as_loop, unroll_const_loops, specialise, ifexp_assign_to_if,
                          search_loop_to_any, index_loop_to_direct, desugar_list_comp_assigns, desugar_map, partial_bindings, expand_partials,
-                         expand_local_callables, rotate_primed_loops)
+                         expand_local_callables, rotate_primed_loops, desugar_match, _own_jumps)
 
 NINJA = 'mesonbuild/backend/ninjabackend.py'
 BACKENDS = 'mesonbuild/backend/backends.py'
@@ -87,7 +87,7 @@ def _nfunc(mod: Module, qn: str) -> ast.AST:
             no_inline.add(_quoter_role(mod)[1])
         except Undecided:
             pass
-    f0 = expand_partials(desugar_map(mod.func(qn)), partial_bindings(mod), True)        # map(f, xs) -> generator; partial aliases -> the call they stand for
+    f0 = expand_partials(desugar_match(desugar_map(mod.func(qn)), True), partial_bindings(mod), True)        # match over type/value tests -> if/elif; map(f, xs) -> generator; partial aliases -> the call they stand for
     f0 = rotate_primed_loops(expand_local_callables(f0, mod.imports(), True), True)    # local partial/lambda/function aliases; loop-and-a-half / walrus loops -> primed loops
     f = unroll_const_loops(desugar_list_comp_assigns(inline_helpers(mod, f0, cls, no_inline), only_tables=True, inplace=True), True)      # inline_helpers works on a copy; the rest edits that copy
     _NF_CACHE[key] = inline_test_locals(search_loop_to_any(index_loop_to_direct(ifexp_assign_to_if(f, True), True), True), True)
@@ -846,16 +846,29 @@ def r2(ctx: RuleCtx) -> None:
         else:
             raise Undecided(f'{qn}: condition {a!r} outside the vocabulary')
     pats: T.Dict[str, T.Set[str]] = {}
-    regs: T.Dict[str, Regex] = {}
+    regs: T.Dict[str, str] = {}
+    cons: T.Dict[str, str] = {}
 
     def pat_class(name: str) -> T.Set[str]:
         if name not in pats:
             r = fold_const(ctx.repo, mod, name)
             if not isinstance(r, Regex):
                 raise Undecided(f'{name} does not fold to a compiled regex: {r!r}')
-            regs[name] = r
+            regs[name] = repr(r.pattern)
+            cons[name] = r.pattern
             pats[name] = _class_of(r)
         return pats[name]
+
+    def table_class(name: str) -> T.Tuple[T.Set[str], T.Dict[str, T.Any]]:
+        """A constant str.translate table: (characters it rewrites, {character: replacement} for those whose replacement is not `$` + the character)."""
+        t = fold_const(ctx.repo, mod, name)
+        if not isinstance(t, dict) or not t or not all(isinstance(k, int) for k in t):
+            raise Undecided(f'{name} does not fold to a str.translate table: {t!r}')
+        changed = {chr(k): (chr(v) if isinstance(v, int) else v) for k, v in t.items() if v != k and v != chr(k)}
+        regs[name] = 'translate table ' + repr({k: changed[k] for k in sorted(changed)})
+        cons[name] = regs[name]
+        pats[name] = set(changed)
+        return pats[name], {k: v for k, v in changed.items() if v != '$' + k}
 
     def eval_recv(e: ast.AST, flag: bool, row: tables.Row) -> str:
         if isinstance(e, ast.IfExp):
@@ -913,13 +926,23 @@ def r2(ctx: RuleCtx) -> None:
                             ctx.violation(mod, qn, f'{pn}.sub({repl!r})', f'replacement template {repl!r} folds to {items}; the ninja escape is the literal `$` followed by the whole match (group 0)', node)
                             continue
                         got, how = present & cls, f'escapes {sorted(cls - {chr(10)})!r} ({pn})'
+                    elif isinstance(e, ast.Call) and isinstance(e.func, ast.Attribute) and e.func.attr == 'translate' and len(e.args) == 1 and not e.keywords \
+                            and norm(e.func.value) == 'ARG1':
+                        # str.translate with a constant table: every character of the table is rewritten wherever it occurs (same reading as a one-character class + template)
+                        pn = eval_recv(e.args[0], flag, r)
+                        cls, wrong = table_class(pn)
+                        if wrong:
+                            ctx.violation(mod, qn, f'translate({pn}): {sorted(wrong.items())!r}', f'the translate table {pn} maps {sorted(wrong.items())!r}; the ninja escape of a character is the literal `$` '
+                                          'followed by that character', node)
+                            continue
+                        got, how = present & cls, f'escapes {sorted(cls - {chr(10)})!r} ({pn})'
                     else:
                         raise Undecided(f'{qn}: result {r.outcome[1]} outside the idioms')
                     ctx.require(got == want, f'{qn}: {where}: {how}', mod, qn, f'{sorted(present)}, {pname}={flag}: {r.outcome[1]}',
                                 f'{where}: the function {how}, so {sorted(got)!r} are escaped; ninja requires exactly {sorted(want)!r} to be escaped here', node)
     for name in sorted(pats):
         extra = pats[name] - REF_SPECIAL[True] - {'\n'}
-        ctx.require(not extra, f'{name} = {regs[name].pattern!r} escapes {sorted(pats[name])!r}', mod, '<module>', f'{name} = {regs[name].pattern}',
+        ctx.require(not extra, f'{name} = {regs[name]} escapes {sorted(pats[name])!r}', mod, '<module>', f'{name} = {cons[name]}',
                     f'{name} also escapes {sorted(extra)!r}: `$x` for other characters is a variable reference or an error in ninja')
     ctx.floor('ninja quote patterns used', len(pats), 2)
     ctx.floor('ninja_quote worlds compared', n_w, 32)
@@ -1799,6 +1822,12 @@ def r4c(ctx: RuleCtx) -> None:
             ctx.violation(mod, qn, f'for {it} in {norm(loop.iter)}', f'{lst} is filled from {norm(loop.iter)}: the test arguments are not kept in their given order', loop)
         else:
             raise Undecided(f'{qn}: {lst} is filled by iterating {short(loop.iter)}, not recognisably the test arguments')
+        # same count: the loop visits every element - nothing may end it early (a `break` of this loop, a `return` inside it); `raise` refuses the whole test
+        early = _own_jumps(loop.body, (ast.Break,)) + [x for x in walk_no_nested(loop) if isinstance(x, ast.Return)]
+        ctx.require(not early, f'{qn}: the loop that fills {lst} has no early exit (every test argument is visited)', mod, qn,
+                    f'for {it} in {norm(loop.iter)}: {sorted({type(x).__name__.lower() for x in early})}',
+                    f'the loop that fills {lst} from {norm(loop.iter)} can end early ({", ".join(sorted({short(x) for x in early}))}): every test argument after the element '
+                    'at which it stops is never added - the test process receives fewer arguments than test() was given', early[0] if early else loop)
         nrow = 0
         for p in enumerate_paths(loop.body):
             idx = None
@@ -1812,8 +1841,17 @@ def r4c(ctx: RuleCtx) -> None:
                    and any(isinstance(n, ast.Name) and n.id == it and isinstance(n.ctx, ast.Store) for n in ast.walk(ev.node))]
             items: T.List[ast.AST] = []
             where = None
+            alias: T.Dict[str, str] = {}          # plain copies of the element on this path (`s = a`, a capture of a match arm): reaching definition per name
             for ev in after:
+                if ev.kind == 'stmt' and isinstance(ev.node, ast.Assign) and len(ev.node.targets) == 1 and isinstance(ev.node.targets[0], ast.Name) and ev.node.targets[0].id != it:
+                    v_ = ev.node.value
+                    if isinstance(v_, ast.Name) and (v_.id == it or alias.get(v_.id) == it):
+                        alias[ev.node.targets[0].id] = it
+                    else:
+                        alias.pop(ev.node.targets[0].id, None)
                 got_ = _appended(ev.node, lst) if ev.kind == 'stmt' else None
+                if got_ is not None:
+                    got_ = [ast.copy_location(ast.Name(id=it, ctx=ast.Load()), x_) if isinstance(x_, ast.Name) and alias.get(x_.id) == it else x_ for x_ in got_]
                 if got_ is not None:
                     res_: T.List[ast.AST] = []
                     for x_ in got_:
@@ -2889,6 +2927,31 @@ def r5d(ctx: RuleCtx) -> None:
         if research:
             loops.append((w, research[0].targets[0].id, research[0].value.args[0] if research[0].value.args else None))
     if not loops:
+        # no re-search loop: is the text searched ONCE and only the match that was found replaced?  `m = R.search(x)` (single definition of m), an
+        # `if` on m (not inside any loop that redefines m) whose body does `x = x.replace(m.group(0), ..)`: one distinct placeholder is substituted.
+        once = []
+        for st in walk_no_nested(fn):
+            if isinstance(st, ast.If):
+                tn = {x.id for x in ast.walk(st.test) if isinstance(x, ast.Name)}
+                for a in ast.walk(st):
+                    if isinstance(a, ast.Assign) and len(a.targets) == 1 and isinstance(a.targets[0], ast.Name) and isinstance(a.value, ast.Call) \
+                            and isinstance(a.value.func, ast.Attribute) and a.value.func.attr == 'replace' and norm(a.value.func.value) == a.targets[0].id and a.value.args:
+                        for m_ in tn:
+                            if norm(a.value.args[0]) in (f'{m_}.group(0)', f'{m_}.group()', f'{m_}[0]'):
+                                once.append((st, m_, a))
+        defs_all = [a for a in walk_no_nested(fn) if isinstance(a, ast.Assign) and len(a.targets) == 1 and isinstance(a.targets[0], ast.Name)]
+        for st, m_, a in once:
+            mdefs = [d for d in defs_all if d.targets[0].id == m_]
+            subj = a.targets[0].id
+            if len(mdefs) == 1 and isinstance(mdefs[0].value, ast.Call) and isinstance(mdefs[0].value.func, ast.Attribute) and mdefs[0].value.func.attr in ('search', 'match') \
+                    and mdefs[0].value.args and norm(mdefs[0].value.args[0]) == subj \
+                    and not any(isinstance(w, ast.While) and any(x is st for x in ast.walk(w)) for w in walk_no_nested(fn)) \
+                    and not any(isinstance(c, ast.Call) and isinstance(c.func, ast.Attribute) and c.func.attr in ('sub', 'subn', 'finditer', 'findall') for c in walk_no_nested(fn)):
+                ctx.violation(mod, qn, f'if {norm(st.test)}: {subj}.replace({norm(a.value.args[0])}, ...) [searched once]',
+                              f'{subj} is searched for an indexed placeholder once (`{short(mdefs[0])}`) and only the text of that one match is replaced under `if {short(st.test)}`; '
+                              f'there is no loop that searches {subj} again, so a second, different placeholder in the same argument stays '
+                              '(witness: generator argument `--outs=@OUTPUT0@,@OUTPUT1@` reaches the program with the literal `@OUTPUT1@`)', st)
+                return
         raise Undecided(f'{qn}: no `while <match>:` re-search loop (the substitution is written differently)')
     for w, m, subject in loops:
         if not isinstance(subject, ast.Name):
@@ -3017,11 +3080,27 @@ def r9(ctx: RuleCtx) -> None:
 def r10(ctx: RuleCtx) -> None:
     rel = 'mesonbuild/compilers/mixins/clike.py'
     mod = ctx.repo.module(rel)
-    qn = 'CLikeCompilerArgs.to_native'
-    fn = _nfunc(mod, qn)
-    fl = OFlow(fn)
+    cname = 'CLikeCompilerArgs'
+    qn = f'{cname}.to_native'
+    # closed world of the class: the conversion may keep the filtering in to_native itself, in a helper (inlined by the normal form) or in a hook method
+    # that an inherited to_native calls back (template method): every method of the class that is called from the class or one of its bases is read;
+    # a loop already seen in the normal form of an earlier method (an inlined helper) is read once.
+    called = {c.func.attr for m_, c_ in ctx.repo.mro(mod, mod.cls(cname)) for f_ in c_.body if isinstance(f_, (ast.FunctionDef, ast.AsyncFunctionDef))
+              for c in ast.walk(f_) if isinstance(c, ast.Call) and isinstance(c.func, ast.Attribute)}
+    order = ['to_native'] + sorted(k for k in mod.methods(cname) if k != 'to_native' and k in called)
+    todo: T.List[T.Tuple[str, ast.AST, OFlow, ast.For]] = []
+    seen_loops: T.Set[str] = set()
+    mod.func(qn)
+    for meth in order:
+        f_ = _nfunc(mod, f'{cname}.{meth}')
+        fl_ = None
+        for x in ast.walk(f_):
+            if isinstance(x, ast.For) and isinstance(x.target, ast.Name) and norm(x) not in seen_loops:
+                seen_loops.add(norm(x))
+                fl_ = fl_ or OFlow(f_)
+                todo.append((f'{cname}.{meth}', f_, fl_, x))
     n = 0
-    for lp in [x for x in ast.walk(fn) if isinstance(x, ast.For) and isinstance(x.target, ast.Name)]:
+    for qn, fn, fl, lp in todo:
         pops = [c for b in lp.body for c in ast.walk(b) if isinstance(c, ast.Call) and isinstance(c.func, ast.Attribute) and c.func.attr == 'pop' and len(c.args) == 1
                 and norm(c.args[0]) == lp.target.id]
         dels = [d for b in lp.body for d in ast.walk(b) if isinstance(d, ast.Delete) and any(isinstance(t, ast.Subscript) and norm(t.slice) == lp.target.id for t in d.targets)]
@@ -3065,7 +3144,7 @@ def r10(ctx: RuleCtx) -> None:
                     f'the positions collected in {inner.id} (ascending) are deleted while iterating {short(it)}, i.e. front to back: every deletion shifts the later '
                     'positions by one, so an argument that follows a filtered entry is dropped and the entry (or its operand) stays', lp)
     if n == 0:
-        raise Undecided(f'{qn}: no loop that deletes collected positions found')
+        raise Undecided(f'{cname}: no loop that deletes collected positions found in {order}')
 
 
 RULES = [
